@@ -64,7 +64,7 @@ def quick_specs():
     S.append(spec("both-auto", "both", O(dir="{out}", export=["csv"]), group="refusal"))
     S.append(spec("both-nj", "both", O(dir="{out}", export=["sqlite"], nj=True), group="journal"))
     S.append(spec("both-w", "both", O(dir="{out}", export=["sqlite"], wal="{db}-wal"), group="journal"))
-    # carving only adds (sqlite + text: the CSV/XLSX writers have the empty-value defect of C11)
+    # carving only adds (sqlite + text here; CSV: ind-csv versus carve-csv)
     for ev in ("plain", "wal"):
         S.append(spec(f"carve-{ev}-0", ev, O(dir="{out}", export=["sqlite", "text"]), group="carve"))
         S.append(spec(f"carve-{ev}-c", ev, O(dir="{out}", export=["sqlite", "text"], carve=True), group="carve"))
